@@ -100,14 +100,15 @@ impl MDBInMemoryShard {
 
             // The cas lookup table
             num_bytes += (size_of::<u64>() + size_of::<u32>()) as u64;
+
+            // The chunk lookup table holds one row per chunk, also for chunks whose hash repeats.
+            num_bytes += ((size_of::<u64>() + 2 * size_of::<u32>()) * cas_block_contents.chunks.len()) as u64;
         }
 
         for (_, file_info) in self.file_content.iter() {
             num_bytes += file_info.num_bytes();
             num_bytes += (size_of::<u64>() + size_of::<u32>()) as u64;
         }
-
-        num_bytes += ((size_of::<u64>() + 2 * size_of::<u32>()) * self.chunk_hash_lookup.len()) as u64;
 
         self.current_shard_file_size = num_bytes;
     }
